@@ -198,7 +198,8 @@ EXTRA_TEXT = {
     "C01": " Added: the snapping stage is now an exact Lean model (Model/SnapLoop.lean, tied to the real snap_traces and to the loop inside branches_and_nodes by stream S06-snappass); "
            "C01_snap_stage_identity proves it is the identity (no repeat pass, no raise) on every map whose decidable quietMap holds, and the oracle evaluates quietMap on the clipped "
            "pieces of every valid map of S01 (all quiet). The node-table and branch-label LOOPS are regenerated as well (C05_generated_*), and so is the whole snapping pass "
-           "(C06_generated_snap_traces): the stage C01_snap_stage_identity speaks about is regenerated code.",
+           "(C06_generated_snap_traces): the stage C01_snap_stage_identity speaks about is regenerated code. C01_generated_pipeline: the regenerated orchestration of branches_and_nodes "
+           "(crop before snapping unless already clipped, snapping loop, length filters, noding dispatch, tables) with the regenerated pass inside equals prepare -> SnapL.snapLoop -> Pipeline.finish.",
     "C04": " Added streams: mirror-image traces inside one bounding box; S04-stubs (stubs of 1.05-3 x snap at a host's tip must be branches: exact total length). "
            "C04_pass_stays_within_threshold: one snapping pass adds to a trace only ends strictly within the threshold of it as it was before the pass; C04_cumulative_drag_witness: "
            "the bound is per pass, not cumulative -- known finding F25 (stacked input, target dragged 1.63 x snap), reported as KNOWN-FINDING and recognised by its trigger region only.",
@@ -234,7 +235,8 @@ EXTRA_TEXT = {
     "C13": " Added: C13_underlap_attribute over the regenerated stateful validator (a passing call leaves the class attribute untouched; verdict and written string never depend on its old "
            "value); S13's pool has a ninth frame (multi-part lines that form node defects once merged). C13_generated_pass: the regenerated row / validator loops of "
            "run_validation equal the model pass; stream S13-generated runs them (compiled, with the regenerated _validate inside, both passes) against the real run_validation with scripted validators.",
-    "C14": " Added stream S14-slivers (corner slivers of 0.5-4 x snap: all four routes must agree).",
+    "C14": " Added stream S14-slivers (corner slivers of 0.5-4 x snap: all four routes must agree). The whole orchestration of branches_and_nodes is regenerated (item BranchesAndNodes) and "
+           "C14_generated_routes proves that already_clipped=True on X and False on Y give the same result or exception whenever the prepared trace lists agree: the flag only decides who crops.",
     "C16": " S16-validation now also runs user-supplied thresholds 0.1 and 0.001. C16_boundary_lines_transparent: the regenerated loops of determine_boundary_intersecting_lines give the same "
            "flags for any two candidate windows that contain every line within the threshold of a boundary (empty windows in any row position included); stream S16-multiarea runs "
            "boundary flags, cropping and extraction on 2-3 area rows (some far from every trace) with the real index and the return-everything index.",
